@@ -23,12 +23,11 @@
 use std::cell::RefCell;
 use std::time::Instant;
 
-#[verifier::external_body]
-pub struct SolutionNode<'a> { _p: core::marker::PhantomData<&'a ()> }
-
+// (the struct SolutionNode itself is copied from solution_node.rs by the unit; a RefCell owns its content, so a type may
+// contain itself behind one, as behind a Box)
 #[verifier::external_type_specification]
 #[verifier::external_body]
-#[verifier::reject_recursive_types(T)]
+#[verifier::accept_recursive_types(T)]
 pub struct ExRefCell<T: ?Sized>(std::cell::RefCell<T>);
 
 #[verifier::external_type_specification]
@@ -299,6 +298,105 @@ pub open spec fn link_of<'a>(r: Option<Rc<RefCell<SolutionNode<'a>>>>) -> Option
     match r { Some(x) => Some(nid(x)), None => None }
 }
 #[verifier::external_body]
+pub fn nd_set_head_sn<'a>(n: &Rc<RefCell<SolutionNode<'a>>>, v: Option<Rc<RefCell<SolutionNode<'a>>>>, Tracked(h): Tracked<&mut Heap>)
+    requires held(*old(h), nid(*n)),
+    ensures final(h).st == old(h).st.insert(nid(*n), NodeSt { head_sn: link_of(v), ..old(h).st[nid(*n)] }),
+            final(h).out == old(h).out, final(h).locked == old(h).locked,
+{ unimplemented!() }
+
+// R15g  the RefMut declared in the body of a function without a result is dropped at the end of that body
+#[verifier::external_body]
+pub fn nd_release<'a>(n: &Rc<RefCell<SolutionNode<'a>>>, Tracked(h): Tracked<&mut Heap>)
+    requires held(*old(h), nid(*n)),
+    ensures final(h).st == old(h).st, final(h).out == old(h).out, final(h).locked == old(h).locked.remove(nid(*n)),
+{ unimplemented!() }
+
+// R15h  `rc_cell!(x)` = Rc::new(RefCell::new(x)): a new node with the contents of the struct x.  depth / call_depth are ghost.
+pub open spec fn state_of<'a>(x: SolutionNode<'a>, d: nat, cd: nat) -> NodeSt {
+    NodeSt {
+        goal: *x.goal, no_backtracking: x.no_backtracking, more_solutions: x.more_solutions,
+        child: link_of(x.child), head_sn: link_of(x.head_sn), tail_sn: link_of(x.tail_sn),
+        rule_index: x.rule_index as int, number_facts_rules: x.number_facts_rules as int,
+        operator_tail: x.operator_tail, ss: *x.ss, depth: d, call_depth: cd, done: false,
+    }
+}
+#[verifier::external_body]
+pub fn nd_alloc<'a>(x: SolutionNode<'a>, Ghost(d): Ghost<nat>, Ghost(cd): Ghost<nat>, Tracked(h): Tracked<&mut Heap>) -> (r: Rc<RefCell<SolutionNode<'a>>>)
+    ensures !alive(*old(h), nid(r)),
+            final(h).st == old(h).st.insert(nid(r), state_of(x, d, cd)),
+            final(h).out == old(h).out, final(h).locked == old(h).locked,
+{ unimplemented!() }
+
+// ---- nodes under construction (make_solution_node) -------------------------------------------------------------------
+// An operator node exists for a moment without its head node (the head node needs the operator node as its parent).
+// inv_but(h, u): the invariant, except that the nodes in u may still lack their head node.
+pub open spec fn wf_partial(h: Heap, n: int) -> bool {
+    let s = h.st[n];
+    &&& !(s.goal is Nil)
+    &&& opt_kid(h, n, s.child) && opt_kid(h, n, s.head_sn) && opt_kid(h, n, s.tail_sn)
+    &&& 0 <= s.rule_index && 0 <= s.number_facts_rules <= usize::MAX
+    &&& s.call_depth <= s.depth && (s.goal is ComplexGoal ==> s.call_depth == s.depth)
+    &&& !s.no_backtracking && !s.done
+}
+pub open spec fn inv_but(h: Heap, u: Set<int>) -> bool {
+    forall|n: int| #[trigger] alive(h, n) ==>
+        if u.contains(n) { wf_partial(h, n) } else { wf_node(h, n) && (h.st[n].done ==> local_done(h, n)) }
+}
+pub proof fn lemma_inv_but_empty(h: Heap)
+    ensures inv(h) == inv_but(h, Set::empty()),
+{}
+// a new node r is added; no other node changes
+pub proof fn lemma_alloc_but(h1: Heap, h2: Heap, r: int, u: Set<int>, full: bool)
+    requires inv_but(h1, u), !alive(h1, r), !u.contains(r), h2.st == h1.st.insert(r, h2.st[r]),
+             if full { wf_node_body(h2, r) && !h2.st[r].done } else { wf_partial(h2, r) },
+    ensures inv_but(h2, if full { u } else { u.insert(r) }),
+{
+    reveal(wf_node); reveal(local_done);
+    let u2 = if full { u } else { u.insert(r) };
+    assert forall|n: int| #[trigger] alive(h2, n) implies
+        (if u2.contains(n) { wf_partial(h2, n) } else { wf_node(h2, n) && (h2.st[n].done ==> local_done(h2, n)) }) by {
+        if n != r {
+            assert(alive(h1, n));
+            assert(h2.st[n] == h1.st[n]);
+            assert(u2.contains(n) == u.contains(n));
+            assert(forall|c: int| is_done(h1, c) ==> is_done(h2, c));
+            assert(forall|o: Option<int>| opt_done(h1, o) ==> #[trigger] opt_done(h2, o));
+            assert forall|o: Option<int>| opt_kid(h1, n, o) implies #[trigger] opt_kid(h2, n, o) by {
+                match o { Some(c) => { assert(alive(h2, c)); assert(c != r); }, None => {} }
+            }
+            assert forall|o: Option<int>| opt_flagged(h1, o) implies #[trigger] opt_flagged(h2, o) by {
+                match o { Some(c) => { assert(alive(h2, c)); assert(c != r); }, None => {} }
+            }
+        }
+    }
+}
+// the head node of r is set: r is complete
+pub proof fn lemma_complete_but(h1: Heap, h2: Heap, r: int, u: Set<int>)
+    requires inv_but(h1, u.insert(r)), alive(h1, r), !u.contains(r),
+             h2.st == h1.st.insert(r, h2.st[r]), wf_node_body(h2, r), !h2.st[r].done,
+             h2.st[r].depth == h1.st[r].depth, h2.st[r].call_depth == h1.st[r].call_depth, h2.st[r].goal == h1.st[r].goal,
+             h2.st[r].no_backtracking == h1.st[r].no_backtracking,
+    ensures inv_but(h2, u),
+{
+    reveal(wf_node); reveal(local_done);
+    assert forall|n: int| #[trigger] alive(h2, n) implies
+        (if u.contains(n) { wf_partial(h2, n) } else { wf_node(h2, n) && (h2.st[n].done ==> local_done(h2, n)) }) by {
+        assert(alive(h1, n));
+        if n != r {
+            assert(h2.st[n] == h1.st[n]);
+            assert(u.insert(r).contains(n) == u.contains(n));
+            assert(forall|c: int| is_done(h1, c) ==> is_done(h2, c)) by { assert(!h1.st[r].done); }
+            assert(forall|o: Option<int>| opt_done(h1, o) ==> #[trigger] opt_done(h2, o));
+            assert forall|o: Option<int>| opt_kid(h1, n, o) implies #[trigger] opt_kid(h2, n, o) by {
+                match o { Some(c) => { assert(alive(h2, c)); }, None => {} }
+            }
+            assert forall|o: Option<int>| opt_flagged(h1, o) implies #[trigger] opt_flagged(h2, o) by {
+                match o { Some(c) => { assert(alive(h2, c)); }, None => {} }
+            }
+        }
+    }
+}
+#[verifier::external_body]
 pub fn nd_set_child<'a>(n: &Rc<RefCell<SolutionNode<'a>>>, v: Option<Rc<RefCell<SolutionNode<'a>>>>, Tracked(h): Tracked<&mut Heap>)
     requires held(*old(h), nid(*n)),
     ensures final(h).st == old(h).st.insert(nid(*n), NodeSt { child: link_of(v), ..old(h).st[nid(*n)] }),
@@ -512,5 +610,31 @@ pub proof fn lemma_after_out(h0: Heap, h1: Heap, h2: Heap, me: int)
             && (h0.st[m].no_backtracking ==> h2.st[m].no_backtracking)
             && (h0.locked.contains(m) ==> same_but_flag(h0.st[m], h2.st[m])) by {
         assert(alive(h1, m));
+    }
+}
+
+// ---- make_solution_node ------------------------------------------------------------------------------------------------
+pub uninterp spec fn op_head(o: Operator) -> Goal;
+pub uninterp spec fn op_tail(o: Operator) -> Operator;
+pub open spec fn op_operand0(o: Operator) -> Goal {
+    match o { Operator::And(g) => g@[0], Operator::Or(g) => g@[0], Operator::Time(g) => g@[0], Operator::Not(g) => g@[0] }
+}
+// R10 target for `goals[0].clone()`
+#[verifier::external_body]
+pub fn first_goal_clone(goals: &Vec<Goal>) -> (r: Goal)
+    // ASSUMED about the data: an operand of not(..) / time(..) is never Goal::Nil (the parsers build none)
+    ensures goals@.len() > 0, r == goals@[0], !(r is Nil),
+{ unimplemented!() }
+pub open spec fn head_has(h: Heap, n: int, s: SubstitutionSet<'static>) -> bool {
+    match h.st[n].head_sn { Some(hd) => alive(h, hd) && h.st[hd].ss == s, None => false }
+}
+pub open spec fn is_cx(g: Rc<Goal>) -> bool { *g is ComplexGoal }
+// every live RefMut belongs to an existing node
+pub proof fn lemma_locked_alive(h0: Heap, h: Heap, me: int)
+    requires working(h0, h, me), above(h0, me),
+    ensures h.locked.subset_of(h.st.dom()),
+{
+    assert forall|m: int| h.locked.contains(m) implies h.st.dom().contains(m) by {
+        if m != me { assert(h0.locked.contains(m)); assert(alive(h0, m)); assert(alive(h, m)); }
     }
 }
